@@ -92,6 +92,20 @@ CHECKS["C20"] = dict(
          "False, none raises; changing any one value-bearing field (also one level down) by a symbolic non-zero delta makes them unequal.",
     design="4/C20", technique="symbolic execution of Packet.__eq__/__repr__ over symbolic parses, CrossHair/z3")
 
+CHECKS["C09"] = dict(
+    text="Two solver layers over the real compile_expr/exec_compiled_expr: (A) EUF - operand values are terms of an uninterpreted sort and "
+         "every operator an uninterpreted function; for each generated tree (every binary operator in both operand orders incl. reflected "
+         "forms, nesting to depth 3) z3 proves, with no axioms, that the deferred term equals the eagerly built term: operand order and stack "
+         "discipline for ALL values; (B) CrossHair - x, y symbolic ints, a 3-element sequence: same value or same exception type, incl. truth, "
+         "len, indexing/slicing, chooses (list, args, dict, keyword) and if_true_then_else.",
+    design="4/C09", technique="z3 EUF equivalence of deferred vs eager terms + symbolic execution of the stack machine on symbolic values (CrossHair/z3)")
+CHECKS["C11"] = dict(
+    text="Bounded symbolic model checking of Fragments: inductive step - one insert(p, s) from an ARBITRARY state satisfying the "
+         "representation invariant (<=3 prior fragments, chunk lengths 0..3, positions symbolic and UNBOUNDED, contents symbolic, incl. "
+         "duplicate start entries): raises <=> an occupied byte intersects, else stored exactly, cursor, earlier chunks unaltered, start list "
+         "sorted; tobytes from arbitrary states; plus all (quick: half of) real histories of 3 append/extend/insert ops vs a sparse-array reference.",
+    design="4/C11", technique="inductive-step symbolic execution of Fragments.insert/tobytes with symbolic-key map proxy, CrossHair/z3")
+
 NA_REASON = "check not built yet in this round (planned: DESIGN.md section 4); no claim is made"
 
 
